@@ -36,6 +36,13 @@ def generate(G):
     hist("start_tracking_two_results", "TwoRoots", [G.leaf_st([2]), G.leaf_st([2])], ["Back(1)", "Back(2)"], "thorough",
          "start_tracking() leaves shared by two results")
     hist("add_twice", "Add", [L([2]), L([2])], ["Back(0)", "Back(0)"], "quick", "a + b twice: both gradients sit on one shared delta buffer after the first pass")
+    for which, name, stubs, tier in ((0, "sigmoid", ("exp",), "quick"), (1, "relu", (), "thorough"), (2, "exp", ("exp",), "thorough"), (3, "powf", ("powf",), "thorough")):
+        G.ob("c10_pointwise_twice_" + name, "C10", "pointwise_twice", "c10::pointwise_twice(s, %d)" % which, unwind=7, tier=tier, stubs=stubs,
+             skeleton={"operation": name, "what": "two passes through the same node with the gradient cleared in between: same derivative both times"},
+             domains="values D2 (relu: Dsgn), seeds D4; tolerance 1e-9")
+    G.ob("c10_reshape_alias", "C10", "reshape_alias", "c10::reshape_alias(s)", unwind=7, tier="quick",
+         skeleton={"what": "y = x.reshape(same dims); r1 = y*w; r2 = x*v; both passes; y's gradient is r1's alone; clearing y leaves x"},
+         domains="values D4")
     hist("square_twice", "Square", [L([2])], ["Back(0)", "Back(0)"], "quick", "self-product differentiated twice")
     hist("no_probe_public_api", "MulAddShare", two, ["Back(1)", "Back(0)"], "quick", "public API only (no hook probes)", probe=False)
     hist("drop_between_small", "MulAddShare", two, ["Back(1)", "DropNode(0)", "Back(1)"], "quick", "an interior handle dropped between two passes")
